@@ -2,6 +2,7 @@ import Ruint.Lemmas.Shift
 import Ruint.Lemmas.GenShift
 import Ruint.Lemmas.GenShiftWrap
 import Ruint.Lemmas.GenShiftOps
+import Ruint.Gen.WordsIntShift
 
 /-!
 # C05 — shifts and rotations move bits exactly and report lost bits exactly
@@ -466,5 +467,62 @@ theorem gen_shift_by_uint_eq (bits : ℕ) (hN : nlimbs bits < 2 ^ 64) (a rhs : L
     Ruint.Gen.uint_shl_uint (nlimbs bits + 1) bits (nlimbs bits) a rhs = shlUint bits a rhs
     ∧ Ruint.Gen.uint_shr_uint (nlimbs bits + 1) bits (nlimbs bits) a rhs = shrUint bits a rhs :=
   ⟨Ruint.GenShiftOps.shl_uint_eq bits hN a rhs ha, Ruint.GenShiftOps.shr_uint_eq bits hN a rhs ha⟩
+
+/-! ## The integer-typed `<<` / `>>` operator impls (`impl_shift!`) as regenerated from `src/bits.rs` (G)
+
+`Gen/WordsIntShift.lean` holds the `@main` arm (`self.wrapping_shl(rhs as usize)`) and the `@assign` arm (`*self = *self << rhs`) of
+`impl_shift!`, instantiated for every integer type found in its invocations. Each is `wrapping_shl` / `wrapping_shr` (tied to
+the model by `gen_shift_wrappers_eq`) at the amount cast to `usize` — for a signed type narrower than `usize` the cast
+sign-extends, so a negative amount becomes a huge one (the property quantifies over the non-negative amounts). -/
+
+/-- `r as usize` for a signed `w`-bit integer given as its two's-complement pattern (`h = w - 1`). -/
+def sext (h w r : ℕ) : ℕ := if decide (2 ^ h ≤ r) then r + (2 ^ 64 - 2 ^ w) else r
+
+theorem gen_int_shift_shapes (f bits L : ℕ) (a : List ℕ) (r : ℕ) :
+    Ruint.Gen.uint_shl_usize f bits L a r = Ruint.Gen.uint_wrapping_shl f bits L a r
+    ∧ Ruint.Gen.uint_shr_usize f bits L a r = Ruint.Gen.uint_wrapping_shr f bits L a r
+    ∧ Ruint.Gen.uint_shl_assign_usize f bits L a r = Ruint.Gen.uint_wrapping_shl f bits L a r
+    ∧ Ruint.Gen.uint_shr_assign_usize f bits L a r = Ruint.Gen.uint_wrapping_shr f bits L a r
+    ∧ Ruint.Gen.uint_shl_u8 f bits L a r = Ruint.Gen.uint_wrapping_shl f bits L a r
+    ∧ Ruint.Gen.uint_shr_u8 f bits L a r = Ruint.Gen.uint_wrapping_shr f bits L a r
+    ∧ Ruint.Gen.uint_shl_assign_u8 f bits L a r = Ruint.Gen.uint_wrapping_shl f bits L a r
+    ∧ Ruint.Gen.uint_shr_assign_u8 f bits L a r = Ruint.Gen.uint_wrapping_shr f bits L a r
+    ∧ Ruint.Gen.uint_shl_u16 f bits L a r = Ruint.Gen.uint_wrapping_shl f bits L a r
+    ∧ Ruint.Gen.uint_shr_u16 f bits L a r = Ruint.Gen.uint_wrapping_shr f bits L a r
+    ∧ Ruint.Gen.uint_shl_assign_u16 f bits L a r = Ruint.Gen.uint_wrapping_shl f bits L a r
+    ∧ Ruint.Gen.uint_shr_assign_u16 f bits L a r = Ruint.Gen.uint_wrapping_shr f bits L a r
+    ∧ Ruint.Gen.uint_shl_u32 f bits L a r = Ruint.Gen.uint_wrapping_shl f bits L a r
+    ∧ Ruint.Gen.uint_shr_u32 f bits L a r = Ruint.Gen.uint_wrapping_shr f bits L a r
+    ∧ Ruint.Gen.uint_shl_assign_u32 f bits L a r = Ruint.Gen.uint_wrapping_shl f bits L a r
+    ∧ Ruint.Gen.uint_shr_assign_u32 f bits L a r = Ruint.Gen.uint_wrapping_shr f bits L a r
+    ∧ Ruint.Gen.uint_shl_isize f bits L a r = Ruint.Gen.uint_wrapping_shl f bits L a r
+    ∧ Ruint.Gen.uint_shr_isize f bits L a r = Ruint.Gen.uint_wrapping_shr f bits L a r
+    ∧ Ruint.Gen.uint_shl_assign_isize f bits L a r = Ruint.Gen.uint_wrapping_shl f bits L a r
+    ∧ Ruint.Gen.uint_shr_assign_isize f bits L a r = Ruint.Gen.uint_wrapping_shr f bits L a r
+    ∧ Ruint.Gen.uint_shl_i8 f bits L a r = Ruint.Gen.uint_wrapping_shl f bits L a (sext 7 8 r)
+    ∧ Ruint.Gen.uint_shr_i8 f bits L a r = Ruint.Gen.uint_wrapping_shr f bits L a (sext 7 8 r)
+    ∧ Ruint.Gen.uint_shl_assign_i8 f bits L a r = Ruint.Gen.uint_wrapping_shl f bits L a (sext 7 8 r)
+    ∧ Ruint.Gen.uint_shr_assign_i8 f bits L a r = Ruint.Gen.uint_wrapping_shr f bits L a (sext 7 8 r)
+    ∧ Ruint.Gen.uint_shl_i16 f bits L a r = Ruint.Gen.uint_wrapping_shl f bits L a (sext 15 16 r)
+    ∧ Ruint.Gen.uint_shr_i16 f bits L a r = Ruint.Gen.uint_wrapping_shr f bits L a (sext 15 16 r)
+    ∧ Ruint.Gen.uint_shl_assign_i16 f bits L a r = Ruint.Gen.uint_wrapping_shl f bits L a (sext 15 16 r)
+    ∧ Ruint.Gen.uint_shr_assign_i16 f bits L a r = Ruint.Gen.uint_wrapping_shr f bits L a (sext 15 16 r)
+    ∧ Ruint.Gen.uint_shl_i32 f bits L a r = Ruint.Gen.uint_wrapping_shl f bits L a (sext 31 32 r)
+    ∧ Ruint.Gen.uint_shr_i32 f bits L a r = Ruint.Gen.uint_wrapping_shr f bits L a (sext 31 32 r)
+    ∧ Ruint.Gen.uint_shl_assign_i32 f bits L a r = Ruint.Gen.uint_wrapping_shl f bits L a (sext 31 32 r)
+    ∧ Ruint.Gen.uint_shr_assign_i32 f bits L a r = Ruint.Gen.uint_wrapping_shr f bits L a (sext 31 32 r)
+    ∧ Ruint.Gen.uint_shl_u64 f bits L a r = Ruint.Gen.uint_wrapping_shl f bits L a r
+    ∧ Ruint.Gen.uint_shr_u64 f bits L a r = Ruint.Gen.uint_wrapping_shr f bits L a r
+    ∧ Ruint.Gen.uint_shl_assign_u64 f bits L a r = Ruint.Gen.uint_wrapping_shl f bits L a r
+    ∧ Ruint.Gen.uint_shr_assign_u64 f bits L a r = Ruint.Gen.uint_wrapping_shr f bits L a r
+    ∧ Ruint.Gen.uint_shl_i64 f bits L a r = Ruint.Gen.uint_wrapping_shl f bits L a r
+    ∧ Ruint.Gen.uint_shr_i64 f bits L a r = Ruint.Gen.uint_wrapping_shr f bits L a r
+    ∧ Ruint.Gen.uint_shl_assign_i64 f bits L a r = Ruint.Gen.uint_wrapping_shl f bits L a r
+    ∧ Ruint.Gen.uint_shr_assign_i64 f bits L a r = Ruint.Gen.uint_wrapping_shr f bits L a r := by
+  refine ⟨rfl, rfl, rfl, rfl, rfl, rfl, rfl, rfl, rfl, rfl, rfl, rfl, rfl, rfl, rfl, rfl, rfl, rfl, rfl, rfl, rfl, rfl, rfl, rfl, rfl, rfl, rfl, rfl, rfl, rfl, rfl, rfl, rfl, rfl, rfl, rfl, rfl, rfl, rfl, rfl⟩
+
+/-- a non-negative amount is passed on unchanged. -/
+theorem sext_nonneg (h w r : ℕ) (hr : r < 2 ^ h) : sext h w r = r := by
+  unfold sext; simp [Nat.not_le.mpr hr]
 
 end Ruint.C05
